@@ -387,7 +387,7 @@ def member_views(subj, cls):
     return out
 
 
-def evaluate(entry, n, a, b, self_masked=False, rhs_full=False, self_strided=False, arg_strided=False, arg_member=False):
+def evaluate(entry, n, a, b, self_masked=False, rhs_full=False, self_strided=False, arg_strided=False, arg_member=False, member_pick=None):
     """rhs_full: (masked subject, in-place operator) give the array argument the UNMASKED length of the subject's
     base array (2n): element i of the view then pairs with argument[raw index of i] = argument[2i]"""
     CTX["ab"] = (a, b)
@@ -422,7 +422,7 @@ def evaluate(entry, n, a, b, self_masked=False, rhs_full=False, self_strided=Fal
             if k.startswith("arr:"):
                 cands = member_views(subj, k[4:])
                 if cands:
-                    member_used = cands[(a + b + j) % len(cands)]
+                    member_used = cands[((a + b + j) if member_pick is None else member_pick) % len(cands)]
                     args[j] = getattr(subj, member_used)
                     break
     arg_elems = []
